@@ -64,7 +64,7 @@ def warm(codec, data, **opts):
 def run_decode(codec, data, **opts):
     """('ok', obj, rest) | ('err', coq err text, repr).  For a quarter of the inputs (chosen by a checksum
     of the octets, so a replay does the same) the call is preceded by the history `warm`."""
-    if HISTORY_ON and len(data) < 4096 and zlib.crc32(bytes(data)) & 3 == 0 and not opts.get('substrateFun'):
+    if HISTORY_ON and isinstance(data, (bytes, bytearray)) and len(data) < 4096 and zlib.crc32(bytes(data)) & 3 == 0 and not opts.get('substrateFun'):
         warm(codec, data, **opts)
     try:
         v, rest = DEC[codec].decode(data, **opts)
